@@ -59,6 +59,13 @@ PROFILES = {
         send=[("send", 4), ("try_send", 2), ("send_timeout", 1), ("asend", 3), ("drop", 3), ("clone", 2), ("obs", 1)],
         recv=[("recv", 4), ("try_recv", 2), ("recv_timeout", 1), ("drain_into", 1), ("arecv", 3), ("stream", 1), ("drop", 3), ("clone", 2), ("obs", 1), ("is_terminated", 1)],
         caps=[0, 0, 1, 2, None], nprocs=[2, 3, 3, 4], nops=[2, 3, 4], payloads=["w1", "b3"], late=0.3),
+    "l2": dict(
+        send=[("send", 6), ("try_send", 3), ("send_timeout", 2), ("send_option_timeout", 2), ("try_send_option", 1),
+              ("try_send_realtime", 1), ("asend", 4), ("close", 1), ("drop", 1), ("clone", 1), ("obs", 1), ("conv", 1)],
+        recv=[("recv", 6), ("try_recv", 3), ("recv_timeout", 2), ("try_recv_realtime", 1), ("drain_into", 2),
+              ("iter_next", 1), ("arecv", 4), ("stream", 2), ("close", 1), ("drop", 1), ("clone", 1), ("obs", 1), ("conv", 1)],
+        caps=[0, 1, 2, None], nprocs=[4], nops=[0, 1, 2, 3, 3], payloads=["w1", "b3", "h4", "p5", "u8", "u16"],
+        sides=["s", "s", "r", "r"], l2=True, late=0.2),
     "drain": dict(
         send=[("send", 6), ("asend", 4), ("try_send", 2), ("send_timeout", 1), ("close", 1), ("drop", 1)],
         recv=[("drain_into", 8), ("recv", 1), ("try_recv", 1), ("close", 1), ("obs", 1)],
@@ -77,6 +84,10 @@ def wchoice(rng, items):
 
 
 def gen_program(rng, profile="general", payload=None, cap="rand"):
+    if profile == "chain":
+        return gen_chain(rng, payload, cap)
+    if profile == "chain_s":
+        return gen_chain(rng, payload, cap, side="s")
     pf = PROFILES[profile]
     n = rng.choice(pf["nprocs"])
     capv = rng.choice(pf["caps"]) if cap == "rand" else cap
@@ -86,12 +97,13 @@ def gen_program(rng, profile="general", payload=None, cap="rand"):
     # at least one sender process and one receiver process
     sides = list(pf.get("sides", ["s", "r"]))[:n]
     sides += [rng.choice("sr") for _ in range(n - len(sides))]
-    rng.shuffle(sides)
+    if not pf.get("l2"):
+        rng.shuffle(sides)
     for pi in range(n):
         side = sides[pi]
         fl = rng.choice(["s", "s", "a"])
         handles = [fl + side]
-        if rng.random() < 0.15:
+        if rng.random() < 0.15 and not pf.get("l2"):
             handles.append(rng.choice("sa") + rng.choice("sr"))
         ops = []
         k = 0
@@ -155,6 +167,14 @@ def gen_program(rng, profile="general", payload=None, cap="rand"):
                 if o == "stream":
                     script = rng.choice(["await", "await_await", "poll_await_await", "await_poll_await", "poll_drop",
                                          "await_await_await", "await_term"])
+                if pf.get("l2"):
+                    # one live future per process: every script ends by completing or dropping it
+                    if o == "stream":
+                        script = rng.choice(["await_drop", "await_await_drop", "poll_await_await_drop", "poll_drop",
+                                             "await_poll_await_drop", "drop"])
+                    else:
+                        script = rng.choice(["await", "await", "poll_await", "poll_poll_await", "poll_drop", "drop",
+                                             "poll_poll_drop", "await_drop"])
                 for step in script.split("_"):
                     w2 = rng.choice([1, 1, 2, 3])
                     if step == "await":
@@ -184,6 +204,105 @@ def gen_program(rng, profile="general", payload=None, cap="rand"):
             phase = 1
         procs.append({"phase": phase, "handles": handles, "ops": ops})
     return {"cap": capv, "payload": pl, "procs": procs}
+
+
+def gen_chain(rng, payload=None, cap="rand", side=None):
+    """Ordered blocking scenario: k waiters of one side register one per phase (barriers), some of them are
+    cancelled from the middle of the waiting list (timed expiry once the clock starts ticking, dropped futures),
+    then the other side arrives and serves the rest."""
+    capv = rng.choice([0, 0, 1, 1, 2]) if cap == "rand" else cap
+    pl = payload or rng.choice(["w1", "b3", "h4", "p5"])
+    k = rng.choice([2, 3, 3, 4])
+    side = side or rng.choice(["s", "s", "s", "r"])
+    procs = []
+    mid = [0]
+
+    def nm():
+        mid[0] += 1
+        return mid[0]
+    cancel_ph = k + 1
+    serve_ph = k + 2
+    if side == "s":
+        # fill the buffer first so that every later send has to wait
+        fill = [{"op": "try_send", "h": 0, "m": nm()} for _ in range(capv or 0)]
+        procs.append({"phase": 0, "handles": [rng.choice(["ss", "as"])], "ops": fill})
+        for j in range(1, k + 1):
+            kind = rng.choice(["send", "send", "asend", "asend_cancel", "timed_cancel", "timed_opt_cancel", "timed_long"])
+            ops = [{"op": "barrier", "ph": j}]
+            m = nm()
+            if kind == "send":
+                ops.append({"op": "send", "h": 0, "m": m})
+            elif kind == "asend":
+                ops += [{"op": "asend_new", "h": 0, "f": 0, "m": m}, {"op": "poll", "f": 0, "w": 1}, {"op": "await", "f": 0, "w": rng.choice([1, 2])}]
+            elif kind == "asend_cancel":
+                ops += [{"op": "asend_new", "h": 0, "f": 0, "m": m}, {"op": "poll", "f": 0, "w": 1},
+                        {"op": "barrier", "ph": cancel_ph}, {"op": "drop_fut", "f": 0}]
+            elif kind == "timed_cancel":
+                ops.append({"op": "send_timeout", "h": 0, "m": m, "d": 3})
+            elif kind == "timed_opt_cancel":
+                ops.append({"op": "send_option_timeout", "h": 0, "m": m, "d": 3})
+            else:
+                ops.append({"op": "send_timeout", "h": 0, "m": m, "d": 400})
+            procs.append({"phase": 0, "handles": [rng.choice(["ss", "as"])], "ops": ops})
+        nrecv = (capv or 0) + k
+        rops = [{"op": "barrier", "ph": serve_ph}]
+        f = 0
+        i = 0
+        while i < nrecv:
+            o = rng.choice(["recv", "recv", "try_recv", "drain", "recv_timeout", "arecv", "stream", "iter_next"])
+            if o == "recv":
+                rops.append({"op": "recv", "h": 0})
+            elif o == "try_recv":
+                rops.append({"op": "try_recv", "h": 0})
+            elif o == "iter_next":
+                rops.append({"op": "iter_next", "h": 0})
+            elif o == "recv_timeout":
+                rops.append({"op": "recv_timeout", "h": 0, "d": 400})
+            elif o == "drain":
+                rops.append({"op": "drain_into", "h": 0, "pre": rng.choice([0, 0, 1]), "spare": rng.choice([0, 2, 8])})
+                i += 1
+            elif o == "arecv":
+                rops += [{"op": "arecv_new", "h": 0, "f": f}, {"op": "await", "f": f, "w": 1}]
+                f += 1
+            else:
+                rops.append({"op": "stream_new", "h": 0, "f": f})
+                for _ in range(rng.choice([2, 3])):
+                    rops.append({"op": "await", "f": f, "w": 1})
+                    i += 1
+                rops.append({"op": "drop_fut", "f": f})
+                f += 1
+            i += 1
+        procs.append({"phase": 0, "handles": [rng.choice(["sr", "ar"])], "ops": rops})
+    else:
+        for j in range(1, k + 1):
+            kind = rng.choice(["recv", "recv", "arecv", "arecv_cancel", "timed_cancel", "timed_long", "stream"])
+            ops = [{"op": "barrier", "ph": j}]
+            if kind == "recv":
+                ops.append({"op": "recv", "h": 0})
+            elif kind == "arecv":
+                ops += [{"op": "arecv_new", "h": 0, "f": 0}, {"op": "poll", "f": 0, "w": 1}, {"op": "await", "f": 0, "w": rng.choice([1, 2])}]
+            elif kind == "stream":
+                ops += [{"op": "stream_new", "h": 0, "f": 0}, {"op": "poll", "f": 0, "w": 1}, {"op": "await", "f": 0, "w": 1}, {"op": "drop_fut", "f": 0}]
+            elif kind == "arecv_cancel":
+                ops += [{"op": "arecv_new", "h": 0, "f": 0}, {"op": "poll", "f": 0, "w": 1},
+                        {"op": "barrier", "ph": cancel_ph}, {"op": "drop_fut", "f": 0}]
+            elif kind == "timed_cancel":
+                ops.append({"op": "recv_timeout", "h": 0, "d": 3})
+            else:
+                ops.append({"op": "recv_timeout", "h": 0, "d": 400})
+            procs.append({"phase": 0, "handles": [rng.choice(["sr", "ar"])], "ops": ops})
+        sops = [{"op": "barrier", "ph": serve_ph}]
+        for _ in range(k + (capv or 0)):
+            o = rng.choice(["send", "try_send", "send_timeout", "asend", "try_send_option"])
+            m = nm()
+            if o == "asend":
+                sops += [{"op": "asend_new", "h": 0, "f": 0, "m": m}, {"op": "await", "f": 0, "w": 1}]
+            elif o == "send_timeout":
+                sops.append({"op": o, "h": 0, "m": m, "d": 400})
+            else:
+                sops.append({"op": o, "h": 0, "m": m})
+        procs.append({"phase": 0, "handles": [rng.choice(["ss", "as"])], "ops": sops})
+    return {"cap": capv, "payload": pl, "procs": procs, "strat": {"tick_phase": cancel_ph, "q_tick": 0.0}}
 
 
 def main():
